@@ -61,6 +61,7 @@ def mappedCmd (args : List String) : String :=
     match parseCps? doc with
     | none => "bad-op"
     | some cs =>
+      if cs.length > 60000 then "skip" else   -- quadratic executable model: oracle-only beyond this size
       match parseChars ⟨false, false⟩ cs false with
       | .error e => showErr false e
       | .ok (v, cm) =>
